@@ -619,7 +619,7 @@ func runBoundedRecord(repo, vdir string) map[string]interface{} {
 	res := map[string]interface{}{
 		"functions": []string{"buildRecordCodec", "schemaForStruct"},
 		"label":     "BOUNDED (not a proof)",
-		"bound":     "every struct type with 0..3 fields over 13 field kinds and plain/omitempty/excluded tags (reflect.StructOf), its generated schema, its record codec, and sampled projection pairs",
+		"bound":     "every struct type with 0..3 fields over 14 field kinds (incl. a type whose registered schema is already a union) and plain/omitempty/excluded tags (reflect.StructOf), its generated schema, its record codec, and sampled projection pairs",
 		"checks":    "schema fields = exported non-excluded Go fields in declaration order under their JSON names with the documented type mapping, deterministic; codec fields carry the offset of the struct field of that name, write at most the field's size, stay inside the struct and do not overlap; absent fields are skip-only",
 	}
 	dir, err := os.MkdirTemp("", "govc-bounded")
